@@ -9,7 +9,7 @@ CONSTANTS
   Stim = {"ho1"}
   StimAnywhere = FALSE
   Focus = "renew"
-  AllowMute = TRUE
+  Mute = "always"
   CheckAfterAcquire = FALSE
   Mut = "none"
   Emit = "edge"
